@@ -46,6 +46,7 @@ ASSUMPTIONS = ["scipy.interpolate.interp1d interpolates linearly and extrapolate
                "np.sum / sum are linear"]
 TECHNIQUE = "normal forms with limit-swap substitution and symbolic differentiation; guarded comparison of sibling arms; parsing of library data files"
 EXPLANATION += (' ' + '(R19.10) where a method of the property / std-type classes or a function of properties_toolbox tests its arguments with isinstance(.., pd.Series), values that may still be Series of two different arguments never meet in an arithmetic operation or comparison: each is converted (.values, np.array, to_numpy) first. Decided by a small abstract interpretation of the normal-form terms (conditional values are followed with the isinstance fact of their arm).')
+EXPLANATION += (' ' + '(R19.11, shared with C12 R12.8) no memoising decorator and no changed module-level container in fluids.py, properties_toolbox.py and std_type_class.py.')
 
 UP, LO = ("sym", "upper_limit_arg"), ("sym", "lower_limit_arg")
 
